@@ -316,7 +316,7 @@ func (ex *Exec) next(fr *frame, st *State, x *ssa.Next) []*State {
 	alts := decodeRuneAlts(s.B[pos:])
 	var feas []runeAlt
 	for _, a := range alts {
-		if ex.feasibleWith(st.G, a.cond, false) {
+		if ex.feasibleSt(st, a.cond, false) {
 			feas = append(feas, a)
 		}
 	}
@@ -362,7 +362,7 @@ func (ex *Exec) stringToRunes(fr *frame, st *State, x *ssa.Convert, s StringV) [
 		alts := decodeRuneAlts(s.B[p.pos:])
 		var feas []runeAlt
 		for _, a := range alts {
-			if ex.feasibleWith(p.st.G, a.cond, false) {
+			if ex.feasibleSt(p.st, a.cond, false) {
 				feas = append(feas, a)
 			}
 		}
@@ -391,7 +391,7 @@ func (ex *Exec) encodeRune(st *State, r *term.Term) ([]*term.Term, bool) {
 		s := string(rune(r.Val))
 		return Str(s).B, true
 	}
-	f := factsOf(st.G)
+	f := st.facts()
 	rg := f.rangeOf(r)
 	if rg.hi < 0x80 {
 		return []*term.Term{term.Extract(r, 7, 0)}, true
